@@ -1,24 +1,26 @@
 import Lean.Data.Json
 import Cfdm.Driver.Parse
-import Cfdm.Model.Append
+import Cfdm.Model.AppendHyp
 /-
 Driver for C17.  One line = one scenario:
 
-  C17.seq fix=<new|old|6 bits> j=<compact JSON, blanks written  >
+  C17.seq fix=<new|old|any|unguarded|weakpinned|6, 7 or 8 bits> j=<compact JSON, blanks written  >
 
 JSON: {"nc4": bool, "steps": [ {"E": ds, "RB": [field…], "S": [field…]} … ]}
   ds    {"dims": [[name,size,unlim]…], "vars": [name…], "g": [[k,vhash]…], "ft": str|null}
   field {"groups": bool, "ft": str|null, "ftf": str|null, "gc": [[k,vhash]…], "reqs": [req…]}
-  cons  [cid, kind, strlen|null, [[k,vhash]…]]
+  cons  [cid, kind, strlen|null, [[k,vhash]…], [extent…]]        (the last: shape of the data, without the char dimension)
   breq  [cons, size, dimBase, varPinned|null, clim]
   req   ["dc",key,axis,cons,base|null,ncdim|null,size,unlim,breq|null] | ["ad",axis,size,unlim,base,[[cid,kind,pos]…],pinned?]
       | ["sc",key,axis,cons,base,breq|null] | ["ax",key,cons,[axes],base,breq|null] | ["da",key,cons,[axes],base,breq|null]
-      | ["ms",key,cons,[axes],base,measure] | ["ft",owner,zaxis,[[term,key,[axes]]…]] | ["gm",cons,base,[keys],multiple]
+      | ["ms",key,cons,[axes],base,measure] | ["ft",owner,zaxis,[[term,key,[axes]]…],[[term,cons]…]?] | ["gm",cons,base,[keys],multiple]
       | ["fa",key,cons,[axes],base] | ["dv",cons,base,[axes],[[[axis|str…],rest]…],isDomain]
 
 Output per step, joined by " || ":
   refused:<why> | failed:<NameInUse|KeyError> …  | ok …   followed by what the pass added to the dataset:
-  D[name,size,unlim;…] V[name(dims)(k=v&…);…]  (sorted by name; only reference attributes are printed)
+  D[name,size,unlim;…] V[name(dims)(k=v&…);…] G=same|changed L[name:old>new;…]
+  (sorted by name; only reference attributes are printed, and `name=*` for the description-of-file-contents
+  attributes comment/history/institution/references/source/title; L: dimensions of the dataset whose length changed)
 -/
 namespace Cfdm.Driver.C17
 open Cfdm.Driver Cfdm.Append Lean
@@ -39,7 +41,8 @@ def kvs (j : Json) : P (List (String × String)) :=
 
 def cons (j : Json) : P Cons := do
   let a ← arr j
-  pure { cid := ← nat (← at' a 0), kind := ← nat (← at' a 1), strlen := ← optNat (← at' a 2), attrs := ← kvs (← at' a 3) }
+  pure { cid := ← nat (← at' a 0), kind := ← nat (← at' a 1), strlen := ← optNat (← at' a 2), attrs := ← kvs (← at' a 3),
+         shape := ← (match a[4]? with | some x => list nat x | none => pure []) }
 
 def breq (j : Json) : P (Option BReq) := do
   if j.isNull then return none
@@ -67,7 +70,10 @@ def req (j : Json) : P Req := do
   | "ms" => pure (.msr (← nat (← at' a 1)) (← cons (← at' a 2)) (← list nat (← at' a 3)) (← str (← at' a 4)) (← str (← at' a 5))
                   (← (match a[6]? with | some x => optStr x | none => pure none)))
   | "ft" => pure (.formula (← nat (← at' a 1)) (← nat (← at' a 2))
-                  (← list (fun t => do let b ← arr t; pure (← str (← at' b 0), ← nat (← at' b 1), ← list nat (← at' b 2))) (← at' a 3)))
+                  (← list (fun t => do let b ← arr t; pure (← str (← at' b 0), ← nat (← at' b 1), ← list nat (← at' b 2))) (← at' a 3))
+                  (← (match a[4]? with
+                      | some x => list (fun t => do let b ← arr t; pure (← str (← at' b 0), ← cons (← at' b 1))) x
+                      | none => pure [])))
   | "gm" => pure (.gridMap (← cons (← at' a 1)) (← str (← at' a 2)) (← list nat (← at' a 3)) (← bool (← at' a 4)))
   | "fa" => pure (.fieldAnc (← nat (← at' a 1)) (← cons (← at' a 2)) (← list nat (← at' a 3)) (← str (← at' a 4)))
   | "dv" => pure (.data (← cons (← at' a 1)) (← str (← at' a 2)) (← list nat (← at' a 3))
@@ -93,11 +99,22 @@ def parseFix (s : String) : Option Fix :=
   | "new" => some Fix.new
   | "old" => some Fix.old
   | "unguarded" => some { Fix.new with globalsGuarded := false }
+  | "weakpinned" => some { Fix.new with pinnedSize := false }
   | _ =>
     match s.toList with
     | [a, b, c, d, e, f] =>
       if [a, b, c, d, e, f].all (fun x => x == '0' || x == '1') then
         some { formulaTerms := a == '1', featureType := b == '1', globals := c == '1', names := d == '1', blanks := e == '1', fill := f == '1' }
+      else none
+    | [a, b, c, d, e, f, g] =>
+      if [a, b, c, d, e, f, g].all (fun x => x == '0' || x == '1') then
+        some { formulaTerms := a == '1', featureType := b == '1', globals := c == '1', names := d == '1', blanks := e == '1', fill := f == '1',
+               dimCoordName := g == '1' }
+      else none
+    | [a, b, c, d, e, f, g, h] =>
+      if [a, b, c, d, e, f, g, h].all (fun x => x == '0' || x == '1') then
+        some { formulaTerms := a == '1', featureType := b == '1', globals := c == '1', names := d == '1', blanks := e == '1', fill := f == '1',
+               dimCoordName := g == '1', dryNames := h == '1' }
       else none
     | _ => none
 
@@ -105,20 +122,31 @@ def refAttrs : List String :=
   ["coordinates", "bounds", "climatology", "formula_terms", "grid_mapping", "cell_measures", "ancillary_variables",
    "cell_methods", "dimensions"]
 
+/-- description-of-file-contents attributes: whether a new variable carries them is the decision of
+`_write_global_attributes` (printed as `name=*`: the value is not compared) -/
+def descrAttrs : List String :=
+  ["comment", "history", "institution", "references", "source", "title"]
+
 def showVar (v : Var) : String :=
-  let ats := (v.attrs.filter (fun kv => refAttrs.contains kv.1)).mergeSort (fun a b => a.1 ≤ b.1)
+  let ats := ((v.attrs.filter (fun kv => refAttrs.contains kv.1)) ++
+              ((v.attrs.filter (fun kv => descrAttrs.contains kv.1)).map (fun kv => (kv.1, "*")))).mergeSort (fun a b => a.1 ≤ b.1)
   s!"{v.name}({",".intercalate v.dims})({"&".intercalate (ats.map (fun kv => kv.1 ++ "=" ++ kv.2))})"
 
 def showAdded (E E' : Ds) : String :=
   let nd := (E'.dims.filter (fun d => !E.dimNames.contains d.name)).mergeSort (fun a b => a.name ≤ b.name)
   let nv := (E'.vars.filter (fun v => !E.varNames.contains v.name)).mergeSort (fun a b => a.name ≤ b.name)
   let gsame := decide (E'.gattrs = E.gattrs)
-  s!"D[{";".intercalate (nd.map (fun d => s!"{d.name},{d.size},{if d.unlim then 1 else 0}"))}] V[{";".intercalate (nv.map showVar)}] G={if gsame then "same" else "changed"}"
+  -- dimensions of the dataset whose length is no longer what it was
+  let ch := (E.dims.filterMap (fun d => match E'.dims.find? (·.name == d.name) with
+    | some d' => if d'.size == d.size then none else some s!"{d.name}:{d.size}>{d'.size}"
+    | none => some s!"{d.name}:{d.size}>gone")).mergeSort (· ≤ ·)
+  s!"D[{";".intercalate (nd.map (fun d => s!"{d.name},{d.size},{if d.unlim then 1 else 0}"))}] V[{";".intercalate (nv.map showVar)}] G={if gsame then "same" else "changed"} L[{";".intercalate ch}]"
 
 def showErr : Err → String
   | .nameInUse n => s!"NameInUse:{n}"
   | .keyError w => s!"KeyError:{w}"
   | .noSuchDim d => s!"NoSuchDim:{d}"
+  | .shapeMismatch d => s!"ShapeMismatch:{d}"
   | .refused w => s!"refused:{w}"
 
 def runStep (fx : Fix) (nc4 : Bool) (j : Json) : P String := do
@@ -133,15 +161,22 @@ def runStep (fx : Fix) (nc4 : Bool) (j : Json) : P String := do
 
 def allFixes : List Fix :=
   let bs := [true, false]
-  bs.flatMap fun a => bs.flatMap fun b => bs.flatMap fun c => bs.flatMap fun d => bs.flatMap fun e => bs.map fun f =>
-    { formulaTerms := a, featureType := b, globals := c, names := d, blanks := e, fill := f }
+  bs.flatMap fun a => bs.flatMap fun b => bs.flatMap fun c => bs.flatMap fun d => bs.flatMap fun e => bs.flatMap fun f => bs.flatMap fun g =>
+    bs.map fun h =>
+    { formulaTerms := a, featureType := b, globals := c, names := d, blanks := e, fill := f, dimCoordName := g, dryNames := h }
 
-/-- `fix=any`: the distinct predictions over every combination of the proposed patches (the patched code
-first), joined by " ### ". -/
+/-- The repair that is proposed but not (yet) in /repo: C17-append-dry-run-names.  The others are in /repo HEAD
+(known_findings.json: `fixed: <commit>`; the dimension-coordinate name since d714c80) and are no longer alternatives. -/
+def pendingFixes : List Fix :=
+  [true, false].map fun h => { Fix.new with dryNames := h }
+
+/-- `fix=any`: the distinct predictions over every combination of the *pending* proposed patches (the patched
+code first), joined by " ### "; `fix=all`: over every combination of all switches. -/
 def runSeq (kv : KV) : String :=
   match (do
     let fs := (kv.get? "fix").getD "new"
-    let fxs ← if fs == "any" then pure allFixes else (parseFix fs).elim (throw "fix") (fun f => pure [f])
+    let fxs ← if fs == "any" then pure pendingFixes else if fs == "all" then pure allFixes
+               else (parseFix fs).elim (throw "fix") (fun f => pure [f])
     let js ← (kv.get? "j").elim (throw "j") pure
     let j ← Json.parse js
     let nc4 ← bool (← j.getObjVal? "nc4")
@@ -153,9 +188,29 @@ def runSeq (kv : KV) : String :=
   | .ok s => s
   | .error _ => "bad-op"
 
+/-- `C17.hyp j=…`: per step, whether the hypotheses of the preservation theorems hold of the inputs (all
+decidable): the fields read back are well-formed / report the dataset's dimension lengths, the batch is
+well-formed, the tables left by the dry run agree with the dataset (for the proposed code and for /repo HEAD). -/
+def runHyp (kv : KV) : String :=
+  match (do
+    let js ← (kv.get? "j").elim (throw "j") pure
+    let j ← Json.parse js
+    let steps ← arr (← j.getObjVal? "steps")
+    let o ← steps.toList.mapM (fun st => do
+      let E ← ds (← st.getObjVal? "E")
+      let rb ← list field (← st.getObjVal? "RB")
+      let S ← list field (← st.getObjVal? "S")
+      let b := fun (x : Bool) => if x then "1" else "0"
+      let head : Fix := { Fix.new with dryNames := false }
+      pure s!"rbwf={b (decide (∀ f ∈ rb, f.wf))} rbfaithful={b (decide (∀ f ∈ rb, f.faithful E))} swf={b (decide (∀ f ∈ S, f.wf))} agrees={b (decide (RegAgrees E (dryReg Fix.new E rb)))} agreeshead={b (decide (RegAgrees E (dryReg head E rb)))}")
+    pure (" || ".intercalate o) : P String) with
+  | .ok s => s
+  | .error _ => "bad-op"
+
 def run (sub : String) (kv : KV) : String :=
   match sub with
   | "seq" => runSeq kv
+  | "hyp" => runHyp kv
   | _ => "bad-op"
 
 end Cfdm.Driver.C17
